@@ -15,11 +15,13 @@ from pygom.model import ode_utils
 METHODS = [None, "lsoda", "vode", "ivode", "dopri5", "dop853"]
 
 
-def random_det_model(rng, closed=False):
-    """bounded-rate random model for deterministic solving: returns (Defn, theta, x0, tend)"""
-    ns = rng.randint(2 if closed else 1, 5)
-    ne = rng.randint(1, 5)
-    np_ = rng.randint(1, 4)
+def random_det_model(rng, closed=False, ns=None, nparams=None, positive=False):
+    """bounded-rate random model for deterministic solving: returns (Defn, theta, x0, tend).
+    ns / nparams fix the number of states / parameters (the last parameter is always the scale N);
+    positive: initial values >= 1"""
+    ns = ns or rng.randint(2 if closed else 1, 5)
+    ne = rng.randint(max(1, ns - 1), 5)
+    np_ = (nparams - 1) if nparams else rng.randint(1, 4)
     states = rng.sample(gen.STATE_NAMES, ns)
     params = rng.sample([p for p in gen.PARAM_NAMES if p != "N"], np_) + ["N"]
     # optional atoms: saturating 1/(1+a*X), periodic cos(w*t) / sin(w*t)
@@ -95,7 +97,7 @@ def random_det_model(rng, closed=False):
     if not closed and rng.random() < 0.3:
         procs.append({"kind": "ode", "st": rng.randint(1, ns), "eqn": pscale(-1, pmul(pa(rng.randrange(np_)), st(rng.randrange(ns))))})
     theta = [Fraction(rng.randint(1, 8), 8) for _ in range(np_)] + [Fraction(rng.choice([8, 16, 32]))]
-    x0 = [Fraction(rng.randint(0, 24), 4) for _ in range(ns)]
+    x0 = [Fraction(rng.randint(4 if positive else 0, 24), 4) for _ in range(ns)]
     xmax = float(max(x0)) + 1.0
     L = sum(3.0 * float(max(theta[:np_])) * max(1.0, xmax) for _ in procs)
     tend = min(6.0, 8.0 / L)
